@@ -33,6 +33,9 @@ type Res struct {
 	Ack   string `json:"ack"` // recv: "ok" | "err" | "nil" | "panic"; admin: "ok" | "err" | "panic"
 	Text  string `json:"text"`
 	Panic string `json:"panic,omitempty"`
+	// Detail is diagnostic only (ICS-20's own error text, which ibc-go redacts in the
+	// acknowledgement and reports in an event); it is not part of the acknowledgement.
+	Detail string `json:"detail,omitempty"`
 }
 
 // Req is one request that reached a bridge (or the bank, for the internal route).
@@ -93,6 +96,8 @@ type Line struct {
 	Post     St             `json:"post"`
 	Obs      Obs            `json:"obs"`
 }
+
+var lastEvents string
 
 var ctlNames = []string{"nopause", "clean", "noacts", "nopt", "plain"}
 
@@ -175,7 +180,7 @@ func (r *Runner) recvOn(ctx sdk.Context, mod porttypes.IBCModule, p channeltypes
 		for _, e := range evs {
 			for _, a := range e.Attributes {
 				if a.Key == "error" {
-					res.Text += " // " + a.Value
+					res.Detail += a.Value + " "
 				}
 			}
 		}
@@ -302,6 +307,8 @@ func (r *Runner) step(bctx sdk.Context, b string, i int, in Input) Line {
 		r.doReimport(bctx, &ln)
 	case "query":
 		r.doQuery(bctx, &ln)
+	case "ackpkt", "timeout":
+		r.doAckTimeout(bctx, &ln)
 	case "ident":
 		r.doIdent(bctx, &ln)
 	case "gendoc":
@@ -313,6 +320,14 @@ func (r *Runner) step(bctx sdk.Context, b string, i int, in Input) Line {
 	ln.Post = w.project(bctx)
 	ln.Obs.OrbPost = w.orbAll(bctx)
 	ln.Obs.OthersPost = w.othersDigest(bctx)
+	if digestObs {
+		if ln.Obs.X == nil {
+			ln.Obs.X = map[string]any{}
+		}
+		ln.Obs.X["dig"] = r.stepDigest(bctx, &ln, lastEvents)
+		ln.Obs.X["peers"] = []string{}
+	}
+	lastEvents = ""
 	return ln
 }
 
@@ -360,12 +375,18 @@ func (r *Runner) doRecv(bctx sdk.Context, ln *Line) {
 		ln.Obs.Ctl["nopt"] = CtlOut{Run: true, Ack: res.Ack, Req: rq, Xfers: xf}
 	}
 
+	var diff *DiffObs
+	if diffObs {
+		d := r.diffRecv(bctx, p)
+		diff = &d
+	}
 	if r.instr != nil {
 		r.instr.arm(in.Faults)
 	}
 	res, evs := r.recvOn(bctx, r.mod, p)
 	ln.Res = res
 	ln.Obs.Req, ln.Obs.Xfers, ln.Obs.Events = r.observe(evs)
+	lastEvents = eventsText(evs)
 	if r.instr != nil {
 		ln.Obs.Fired = r.instr.firedList()
 		if rq := r.instr.takeRequests(); rq != nil {
@@ -373,6 +394,20 @@ func (r *Runner) doRecv(bctx sdk.Context, ln *Line) {
 		}
 		ln.Obs.X = r.instr.takeExtra()
 		r.instr.disarm()
+	}
+	if diff != nil {
+		if ln.Obs.X == nil {
+			ln.Obs.X = map[string]any{}
+		}
+		ln.Obs.X["diff"] = *diff
+	}
+	if parseObs && in.Dn != "RAWDATA" {
+		if ln.Obs.X == nil {
+			ln.Obs.X = map[string]any{}
+		}
+		memo, _ := conc["memo"].(string)
+		ln.Obs.X["parse"] = w.parseTwice(memo)
+		ln.Obs.X["rt"] = w.roundTrip(in, memo)
 	}
 }
 
@@ -504,6 +539,7 @@ func (r *Runner) doAdmin(bctx sdk.Context, ln *Line) {
 	res, evs := r.msgOn(bctx, msg)
 	ln.Res = res
 	ln.Obs.Req, ln.Obs.Xfers, ln.Obs.Events = r.observe(evs)
+	lastEvents = eventsText(evs)
 	if r.instr != nil {
 		ln.Obs.Fired = r.instr.firedList()
 		if rq := r.instr.takeRequests(); rq != nil {
